@@ -233,7 +233,7 @@ def validate(ctx, recs, name="Trace_CdefInc"):
         chunk = recs[i:i + 800]
         path = os.path.join(ctx.tmp, "inc_trace_%d.json" % len(ctx.cov["tlc_runs"]))
         core.write_json(path, chunk)
-        r = core.tlc("Trace_CdefInc", workers=1, env={"TRACE_FILE": path}, timeout=1500)
+        r = core.tlc("Trace_CdefInc", workers=1, env={"TRACE_FILE": path, "JAVA_TOOL_OPTIONS": "-Xss256m"}, timeout=1500)
         ctx.add_tlc(name, r, count_states=False)
         got = tuples(r.out, "VERDICT")
         want = sum(len(c["obs"]) for c in chunk)
